@@ -301,9 +301,15 @@ class CKernel:
                 if isinstance(a, lp.ValueArg):
                     if p.name not in args:
                         raise TypeError(f"missing value argument '{p.name}'")
-                    ct = _CT[np.dtype(a.dtype.numpy_dtype)]
+                    want = np.dtype(a.dtype.numpy_dtype)
+                    ct = _CT[want]
+                    val = np.asarray(args[p.name])
+                    if not np.can_cast(val.dtype, want, "same_kind"):
+                        raise TypeError(
+                            f"value argument '{p.name}': the kernel declares "
+                            f"{want}, the caller passes {val.dtype}")
                     argtypes.append(ct)
-                    cargs.append(ct(args[p.name]))
+                    cargs.append(ct(val.astype(want).item()))
                     continue
                 dtype = a.dtype.numpy_dtype
                 shape = _eval_shape(a.shape, value_params)
